@@ -10,6 +10,7 @@ import (
 	"encoding/binary"
 	"fmt"
 	"hash/crc32"
+	"math"
 	"runtime/metrics"
 	"strings"
 	"testing"
@@ -172,7 +173,17 @@ func gptFaults(g *gptSpec, emit func(f c15Fault) bool) {
 			max = ^uint64(0)
 		}
 		var out [][]byte
-		for _, v := range []uint64{0, 1, 128, 1 << 16, 1 << 25, max >> 1, max, sectors - 1, sectors + 1} {
+		vs := []uint64{0, 1, 128, 1 << 16, 1 << 25, max >> 1, max, sectors - 1, sectors + 1}
+		if w == 8 {
+			// the largest block numbers whose byte offset still fits a signed 64-bit integer: offset + size wraps here
+			for _, lss := range []uint64{512, 4096} {
+				vs = append(vs, math.MaxInt64/lss, math.MaxInt64/lss-1, math.MaxInt64/lss+1, (math.MaxInt64-(16<<20))/lss+1)
+			}
+		} else {
+			// the largest entry counts the 16 MiB array cap admits
+			vs = append(vs, 1<<17, 1<<17-1, 1<<17+1)
+		}
+		for _, v := range vs {
 			out = append(out, le(v&max, w))
 		}
 		return out
